@@ -1757,6 +1757,8 @@ class Interp:
                 if isinstance(v, x.pytypes) and not isinstance(v, (Obj,)):
                     if x.name == "str" and not isinstance(v, str):
                         continue
+                    if isinstance(v, KeyList) and x.name in ("list", "tuple", "set", "dict"):
+                        continue        # a keys view is iterable, but it is not a list
                     return True
             elif isinstance(x, ExcClass):
                 if isinstance(v, (PyRaise,)) and v.isa(x.name):
